@@ -209,6 +209,7 @@ def evaluate(ctx, variants, cases, full=False):
         for ch, f in zip(mchunks, mf):
             mout.update(zip(ch, f.result()))
         hres = {g: f.result() for g, f in hf.items()}
+    storm = {}
     for (v, cfg), cs in groups.items():
         N, T, M, CT, ST = v
         outs, crashes = hres[(v, cfg)]
@@ -231,6 +232,12 @@ def evaluate(ctx, variants, cases, full=False):
             corr.dist["cells/" + ("1" if cells == 1 else "<=64" if cells <= 64 else "<=4096" if cells <= 4096 else ">4096")] += 1
             d = parse_impl(o)
             what0 = f"{kind} {a}->{b} {sz} ({variant_name(v)}, {cfg})"
+            if o == "CRASH too-many-crashes":
+                # the harness died more than 200 times in this batch; the remaining lines were not executed
+                corr.dist["not-executed/too-many-crashes"] += 1
+                corr.add_obl("convert_values", 1, 1)
+                storm[(v, cfg)] = storm.get((v, cfg), 0) + 1
+                continue
             if d is None:
                 for ob in OBLS:
                     corr.add_obl(ob, 1, 1)
@@ -302,6 +309,8 @@ def evaluate(ctx, variants, cases, full=False):
                                impl=o, model="intact", oracle_fails=True, key=key, cfg=cfg)
             if len(corr.samples) < 10 and cells >= 12 and a != b and (not corr.samples or corr.samples[-1].get("from") != a):
                 corr.sample({"op": kind, "from": a, "to": b, "sz": sz, "variant": variant_name(v), "cfg": cfg, "impl": o[:200], "model": m[:120]})
+    for (v, cfg), n in storm.items():
+        corr.notes.append(f"{variant_name(v)}/{cfg}: the harness died more than 200 times; {n} cases were not executed")
     corr.violations.sort(key=lambda v: (not v["oracle_fails"], L.prod(v["case"]["op"][3] if v["case"]["op"][0] == "conv" else v["case"]["op"][5]),
                                         len(str(v["case"]))))
     return corr
